@@ -8,6 +8,7 @@ mod c04;
 mod c06;
 mod c07;
 mod c09;
+mod c15;
 mod c16;
 mod c18;
 mod endops;
@@ -74,6 +75,7 @@ fn main() {
         "c04" => c04::run(&p),
         "c05" => streams::run_family(&p, &streams::C05),
         "c11" => streams::run_family(&p, &streams::C11),
+        "c15" => c15::run(&p),
         "c16" => c16::run(&p),
         "c18" => c18::run(&p),
         "c20" => c20::run(&p),
